@@ -6,6 +6,7 @@ with the independent CMS/GKDI parsers and compared with exact integer arithmetic
 """
 from __future__ import annotations
 
+import math
 import typing as t
 import uuid
 
@@ -22,7 +23,7 @@ RULE = (
     "1970..2200 and the real clock. distinct = (t, phase); non-trivial = within 64 ticks of an interval boundary"
 )
 ASSUMPTIONS = [
-    "the library obtains 'now' through time.time_ns or time.time (the scripted clock's read counter must be > 0, else inconclusive)",
+    "the library obtains 'now' through time.time_ns or time.time (scripted; if the read counter stays 0 the case is judged against the real clock instead, without boundary steering)",
     "t = ns // 100 + 116444736000000000 (FILETIME), B = 3.6e11 ticks per L2 interval (MS-GKDI 3.1.4.1)",
 ]
 
@@ -34,6 +35,12 @@ ROOT = bytes(range(64))
 
 def expected(t_: int) -> t.Tuple[int, int, int]:
     return (t_ // (1024 * B), (t_ // (32 * B)) % 32, (t_ // B) % 32)
+
+
+def float_neighbours(ft: int) -> t.Set[t.Tuple[int, int, int]]:
+    """Intervals within two double-precision ulps of t (what a reader of time.time() can legitimately see)."""
+    fuzz = int(math.ulp(mon.filetime_to_ns(ft, 0) / 1e9) * 1e7 * 2) + 2
+    return {expected(ft - fuzz), expected(ft + fuzz)}
 
 
 def plan(tier: str, seed: int) -> t.List[dict]:
@@ -63,8 +70,8 @@ def plan(tier: str, seed: int) -> t.List[dict]:
 
 def finalize(agg, tier):
     r = []
-    if agg.counter("clock_reads") == 0:
-        r.append("scripted clock was never read by the code under test (time source changed?)")
+    if agg.counter("clock_reads") == 0 and agg.counter("clock_not_steerable") == 0:
+        r.append("no clock observation at all")
     if agg.counter("identifiers_compared") == 0:
         r.append("no key identifier compared")
     if agg.counter("realclock_cases") == 0:
@@ -110,13 +117,14 @@ def protect_at(ft: int, phase: int = 0, fresh_cache: bool = False) -> bytes:
 
 def check_instant(rec: Recorder, ft: int, phase: int, near: bool, fresh: bool = False) -> None:
     wit = {"filetime": str(ft), "phase_ns": phase, "fresh_cache": fresh}
-    before = mon.CLOCK.reads
+    before, fbefore = mon.CLOCK.sut_reads, mon.CLOCK.float_reads
+    real0 = mon.CLOCK._orig_ns()
     try:
         blob = protect_at(ft, phase, fresh)
     except Exception as e:
         rec.violation("protect-raised", f"protect at t={ft}+{phase}ns raised {type(e).__name__}: {e}", wit)
         return
-    rec.count("clock_reads", mon.CLOCK.reads - before)
+    rec.count("clock_reads", mon.CLOCK.sut_reads - before)
     try:
         kid = gkdi.dec_key_identifier(cms.parse(blob)["key_identifier"])
     except Exception as e:
@@ -125,6 +133,22 @@ def check_instant(rec: Recorder, ft: int, phase: int, near: bool, fresh: bool = 
     got = (kid["l0"], kid["l1"], kid["l2"])
     exp = expected(ft)
     rec.count("identifiers_compared")
+    if mon.CLOCK.sut_reads == before:
+        # the code under test did not ask time.time_ns / time.time (e.g. datetime.now()): the scripted instant cannot be
+        # imposed; the blob must then name the interval containing the REAL current time (either one if a boundary passed)
+        rec.count("clock_not_steerable")
+        real1 = mon.CLOCK._orig_ns()
+        ok = {expected(real0 // 100 + mon.EPOCH_FILETIME), expected(real1 // 100 + mon.EPOCH_FILETIME)}
+        if got not in ok:
+            rec.violation("interval-mismatch", f"real clock {real0}..{real1} ns: blob names {got}, interval containing now is {sorted(ok)}", wit)
+        rec.case((ft, phase), nontrivial=False)
+        return
+    if got != exp and mon.CLOCK.float_reads > fbefore and got in float_neighbours(ft):
+        # 'now' was read as a float (time.time()): a double resolves 2.4e-7 s today (3.8e-6 s in the 24th century), so
+        # instants within two ulps of a boundary are not distinguishable by the code under test - not judged
+        rec.count("float_clock_boundary_not_judged")
+        rec.case((ft, phase), nontrivial=False)
+        return
     if got != exp:
         mech = "l0-float-division" if (got[0] == exp[0] + 1 and exp[1:] == (31, 31)) else "interval-mismatch"
         rec.violation(mech, f"t={ft} (+{phase}ns): blob names {got}, interval containing t is {exp}", wit)
@@ -171,11 +195,18 @@ def run_seedcache(spec: dict, rec: Recorder) -> None:
                 exp = expected(ft)
                 covered = exp[0] == l0 and (exp[1] < a or (exp[1] == a and exp[2] <= b))
                 wit = {"filetime": str(ft), "seed_position": [l0, a, b], "kind": "seedcache", "shard": spec["name"], "round": rnd}
+                rb, fb = mon.CLOCK.sut_reads, mon.CLOCK.float_reads
                 try:
                     with mon.CLOCK.at_ns(mon.filetime_to_ns(ft, rng.randrange(100))), mon.NET.guard():
                         out = dpapi_ng.ncrypt_protect_secret(b"c09-seed", sid, root_key_identifier=rkid, cache=cachex)
                 except mon.NetworkAttempt:
                     rec.count("seedcache_not_covered_went_to_network")
+                    if mon.CLOCK.sut_reads == rb:
+                        rec.count("clock_not_steerable")  # the real 'now' is not covered by this (past) seed key: going to the DC is right
+                        continue
+                    if covered and mon.CLOCK.float_reads > fb and len(float_neighbours(ft)) > 1:
+                        rec.count("float_clock_boundary_not_judged")
+                        continue
                     if covered:
                         rec.violation("covered-interval-not-served-from-cache", f"t={ft} lies in {exp}, covered by the cached seed keys {(l0, a, b)}, but protect tried to contact a DC", wit)
                     continue
@@ -185,6 +216,15 @@ def run_seedcache(spec: dict, rec: Recorder) -> None:
                 kid = gkdi.dec_key_identifier(cms.parse(out)["key_identifier"])
                 got = (kid["l0"], kid["l1"], kid["l2"])
                 rec.count("seedcache_identifiers_compared")
+                if mon.CLOCK.sut_reads == rb:
+                    rec.count("clock_not_steerable")
+                    now_ft = mon.CLOCK._orig_ns() // 100 + mon.EPOCH_FILETIME
+                    if got not in (expected(now_ft), expected(now_ft - 10**7 * 60)):
+                        rec.violation("interval-mismatch", f"seed-cache path, real clock: blob names {got}, now is in {expected(now_ft)}", wit)
+                    continue
+                if got != exp and mon.CLOCK.float_reads > fb and got in float_neighbours(ft):
+                    rec.count("float_clock_boundary_not_judged")
+                    continue
                 if got != exp:
                     rec.violation("interval-mismatch", f"seed-cache path: t={ft}: blob names {got}, interval containing t is {exp}", wit)
                 elif cms.reference_unprotect(out, {rkid: rk}) != b"c09-seed":
